@@ -770,6 +770,31 @@ def acmd_alt_family(seed, n, maxlen=4, budget=6000):
     return out
 
 
+def nested_adj_family(seed, n):
+    """shapes beyond the acceptors (judged by the ledger protocol only): an adjacent group inside an adjacent
+    subcommand, an adjacent group inside a choice, next to enclosing options and a trailing positional"""
+    rnd = random.Random(seed)
+    out = []
+    for i in range(n):
+        pt = adjf("pt", ["many", "opt", "one"][i % 3], rf("ph", "one", "--point"), posm("x", "int"), posm("y", "int"))
+        if i % 2:
+            pt["members"].append({"kind": "pos", "id": "z", "vt": "int", "arity": "opt", "strict": "any", "help": "HELP-z", "metavar": "MVZ", "hidden": False})
+        shape = i % 4
+        if shape < 2:
+            inner = adjf("dr", ["many", "one"][shape], cmdhead("dh", "draw"), pt, sw("f", "--fill"))
+            fields = [sw("o1", "-v"), inner]
+        elif shape == 2:
+            rc = adjf("rc", "many", rf("rh", "one", "--rect"), ar("w", "one", "int", "--ww"), ar("h", "one", "int", "--hh"))
+            fields = [sw("o1", "-v"), altf("g0", "many", branch(pt), branch(rc))]
+        else:
+            inner = adjf("dr", "many", cmdhead("dh", "draw"), pt)
+            inner2 = adjf("er", "many", cmdhead("eh", "erase"), ar("n", "one", "int", "--num"))
+            fields = [sw("o1", "-v"), inner, inner2]
+        tail = postail(pos("p0", ["opt", "many"][i % 2])) if shape != 3 else NOTAIL
+        out.append(mkdef(f"nadj{seed}_{i}", level(fields, tail), maxlen=1))
+    return out
+
+
 def galphabet_size(d):
     a = d["alpha"]
     n = len(a["extras"]) + len(a["words"])
